@@ -11,7 +11,9 @@
 (* Values: "A" one-line atom (echoes the options), "M" an atom writing two *)
 (* lines in two chunks, "X" an atom writing "x:" and then "p\nq" in ONE    *)
 (* chunk, "U" a nested unit value, "T" a nested tuple of one "A", "S" a    *)
-(* nested struct with one field "A".                                       *)
+(* nested struct with one field "A", "E" an atom that writes "e" and then   *)
+(* FAILS (returns Err): the symbol "!" in an output marks the point where  *)
+(* the error is raised - nothing after it is ever written (View).          *)
 (***************************************************************************)
 EXTENDS Naturals, Sequences, FiniteSets, TLC
 
@@ -51,6 +53,7 @@ CoreShow(v, o) ==
       [] v = "M" -> <<<<"m", NL>>, <<"n">>>>
       [] v = "X" -> <<<<"x", ":">>, <<"p", NL, "q">>>>
       [] v = "U" -> <<<<"U">>>>
+      [] v = "E" -> <<<<"e">>, <<"!">>>>
       [] v = "T" -> <<CoreTuple(<<"T">>, <<"A">>, FALSE, o)>>
       [] v = "S" -> <<CoreStruct(<<"S">>, <<"A">>, FALSE, o)>>
 
@@ -103,6 +106,7 @@ DmShow(v, o) ==
       [] v = "M" -> <<<<"m", NL>>, <<"n">>>>
       [] v = "X" -> <<<<"x", ":">>, <<"p", NL, "q">>>>
       [] v = "U" -> <<<<"U">>>>
+      [] v = "E" -> <<<<"e">>, <<"!">>>>
       [] v = "T" -> <<DmTuple(<<"T">>, <<"A">>, FALSE, o)>>
       [] v = "S" -> <<CoreStruct(<<"S">>, <<"A">>, FALSE, o)>>      \* named structs use core's builder
 
@@ -130,5 +134,26 @@ DmTuple(name, fs, ne, o) ==
 EchoesOptions(v) == v \in {"A", "T", "S"}
 KnownDeviation(fs, o) == o.alt /\ o.w /\ \E i \in 1..Len(fs) : EchoesOptions(fs[i])
 
-TraceEq(name, fs, ne, o) == DmTuple(name, fs, ne, o) = CoreTuple(name, fs, ne, o)
+(***************************************************************************)
+(* Failure.  Both builders thread a `result` through every call            *)
+(* (`self.result = self.result.and_then(..)`, `?` inside): after the first *)
+(* error nothing more is written and the error is what `finish` returns.   *)
+(* View(out): what is observable of an output containing the error mark.   *)
+(* SinkView(out, b): the same through a writer that fails ONCE, when the   *)
+(* b+1-th byte arrives (it keeps the b bytes, and would accept later       *)
+(* writes again - an implementation that goes on after an error shows).    *)
+(***************************************************************************)
+ErrAt(out) == IF \E i \in 1..Len(out) : out[i] = "!"
+              THEN CHOOSE i \in 1..Len(out) : out[i] = "!" /\ \A j \in 1..(i - 1) : out[j] # "!"
+              ELSE 0
+View(out) == LET i == ErrAt(out) IN
+             IF i = 0 THEN [text |-> out, ok |-> TRUE] ELSE [text |-> SubSeq(out, 1, i - 1), ok |-> FALSE]
+SinkView(out, b) == LET v == View(out) IN
+                    IF b < Len(v.text) THEN [text |-> SubSeq(v.text, 1, b), ok |-> FALSE] ELSE v
+FailStop(name, fs, ne, o) ==
+    LET c == CoreTuple(name, fs, ne, o)
+        d == DmTuple(name, fs, ne, o)
+    IN \A b \in 0..Len(c) : SinkView(d, b) = SinkView(c, b)
+
+TraceEq(name, fs, ne, o) == View(DmTuple(name, fs, ne, o)) = View(CoreTuple(name, fs, ne, o))
 =============================================================================
